@@ -70,3 +70,13 @@ chk("C13", "exploration",
     "BAM: one record stream re-blocked by an independent BGZF encoder at every set of <=2 cut positions around record boundaries (incl. inside length prefixes, with optional empty blocks); for every file every list of <=2 (3) record-range chunks in every order through bam.Iterator, rd 1 and 2. ChunkReader: eight block layouts, every ascending non-overlapping list of <=2 (3) chunks over ALL virtual offsets (both spellings of block ends, zero-length chunks), four buffer sizes; oracle = flat bytes, then io.EOF within a progress horizon.",
     "BAM stream from refimpl's BAM encoder, files from refimpl's BGZF encoder; record sizes are small (no record larger than a block in quick).",
     "bounded-exhaustive enumeration of block layouts x chunk lists x buffer sizes", "DESIGN.md §3 C13", "enum (E3)")
+
+chk("C04", "model_checking",
+    "Bounded explicit-state search over index states: every sorted sequence of 1-2 records over a boundary-biased interval alphabet (every bin-level edge +-1, tile edges, the 2^29 limit) and every sequence of 3 over a reduced alphabet, on reference patterns incl. a reference without records, placed-unmapped and unplaced records, each added with the real Add of BAI, tabix and CSI (five geometries); in every state every query of a position alphabet on every reference must be answered with chunks covering every overlapping record (error or empty answer only if nothing overlaps), Add must not fail or panic; repeated after write->read and after MergeChunks with five strategies.",
+    "States are not de-duplicated (every sequence is its own state; transitions = Add calls). Chunks are synthetic consecutive virtual offsets exercising same-block, block-end and next-block forms; the end-to-end pass through a written BAM is covered by C13/C05. Alphabets are finite: positions between the listed edges are represented by their neighbours.",
+    "explicit-state enumeration of real Add sequences with an exhaustive query sweep in every state", "DESIGN.md §3 C04", "xmc (E2) / enum (E3)")
+
+chk("C15", "exploration",
+    "For every index state of the C04 generator (BAI, tabix with varied header fields, CSI v1/v2 with and without auxiliary bytes on four geometries): write -> read -> write byte identity, identical answers to every C04 query before and after, and NumRefs / per-reference mapped, unmapped and span statistics / unplaced count equal on both sides and equal to the true counts of the records added.",
+    "True counts are computed by the harness from the generated records (tabix references are numbered by first appearance of their names). 'Missing stats' and 'absent trailing unplaced count' variants are reached through states without placed/unplaced records.",
+    "bounded-exhaustive enumeration of index states through the real writer and reader", "DESIGN.md §3 C15", "enum (E3)")
